@@ -170,7 +170,19 @@ def gen_single(rng, t, inp, vanishing=False, drop_piece=False):
                 pc["kind"], pc["expect"] = "cont", "Contaminant"
             pc["chrom"] = None
             pc["nametag"] = None
-        design.append({"painted": False, "rows": grp, "target": has_target, "nametag": None, "row_tags": {}})
+        row_tags = {}
+        nametag = None
+        if not vanishing and not drop_piece and rng.random() < 0.1 and all(pc["kind"] == "unpainted" and core_has_bases(by_name, pc, t) for pc in grp):
+            # a chromosome-name tag on a scaffold that was not painted: the tag alone makes it that chromosome
+            cand = [x for x in NAMETAGS if x not in used_names and not (x[0].isdigit() if roman_family else x in ("I", "II", "III"))]
+            if cand:
+                nametag = rng.choice(cand)
+                used_names.add(nametag)
+                row_tags[rng.randrange(len(grp))] = [nametag]
+                for pc in grp:
+                    pc["kind"], pc["chrom"], pc["nametag"] = "main", 1000 + len(design), nametag
+                labels.add("tag:name-tag-on-unpainted-scaffold")
+        design.append({"painted": False, "rows": grp, "target": has_target, "nametag": nametag, "row_tags": row_tags})
     rng.shuffle(design)
     # chromosome ids follow the shuffled order
     pt = _emit(rng, design, target_mode)
@@ -351,6 +363,16 @@ def gen_two_hap(rng, t, unprefixed=False, primary=None):
                 first = rng.choice(un)
                 design = [first] + [d for d in design if d is not first]
                 labels.add("tag:name-spelled-haplotype-seen-before-its-tag")
+    if primary and rng.random() < 0.35:
+        # tags are per piece in PretextView: a piece that was tagged Primary together with the rest of the Primary
+        # chromosome and then moved out into an unplaced scaffold of the other haplotype keeps the tag.  The
+        # first Primary tag of the map has already said which haplotype is the primary one; nothing changes
+        un = [d for d in design if not d["painted"] and not d.get("row_tags") and d["rows"][0]["kind"] == "unpainted"
+              and len(d["rows"]) == 1 and d["rows"][0]["s"].startswith(H2 + "_")]
+        if un and design[0]["painted"] and "Primary" in design[0]["row_tags"].get(0, []):
+            later = rng.choice(un)
+            later["row_tags"] = {0: ["Primary"]}
+            labels.add("tag:second-primary-tag-on-scaffold-of-other-haplotype")
     pt = _emit(rng, design, False)
     all_pieces = [pc for d in design for pc in d["rows"]]
     for pc in all_pieces:
